@@ -42,6 +42,7 @@ type queue struct {
 	rstSeen       bool
 	resetReported bool // the pending socket error has been returned once (later reads see EOF)
 	reset         bool // the writer of this queue aborted the connection (closed with unread data): reader gets ECONNRESET after the queued bytes
+	aborted       bool // the writer of this queue sent RST (possibly after a FIN): the reader's own writes and shutdowns fail at once
 	total         int  // bytes ever written
 	segs          int
 }
